@@ -46,8 +46,9 @@ func (nullExec) EndBlock(*types.Block, events.Fireable, *types.PartSetHeader, []
 }
 
 type netMsg struct {
-	msg  pbft.ConsensusMessage
-	from string
+	msg   pbft.ConsensusMessage
+	from  string
+	after int // not delivered before this scheduler step (adversarial prefix only)
 }
 
 type vnode struct {
@@ -68,6 +69,7 @@ type vnode struct {
 	tiLast   pbft.VerifTimeout  // the ticker's memory of the last request it accepted
 	trace    []string // sx of steps
 	preCrash string
+	evsw     types.EventSwitch
 	walIn    []bool   // the inputs logged since the current height began: true = record intact
 	down     bool
 	panicked string
@@ -101,6 +103,9 @@ type cnet struct {
 	psets    map[string]*types.PartSet
 	txn      int
 	proposers map[string][]byte
+	madeInvalid map[string]string // blocks built to be invalid, by hash -> what is wrong with them
+	delay    int                   // how often a broadcast message is held back for a while
+	now      int
 }
 
 func (c *cnet) hit(sig, what string) {
@@ -159,7 +164,7 @@ func (c *cnet) boot(i int, fresh bool) error {
 	pool := mempool.NewMempool(nd.conf)
 	for k := 0; k < 2; k++ {
 		c.txn++
-		pool.ReceiveTx(types.Tx(fmt.Sprintf("tx-%d-%d-%s", i, c.txn, strings.Repeat("x", c.r.Intn(300)))))
+		pool.ReceiveTx(types.Tx(fmt.Sprintf("tx-%d-%d-%s", i, c.txn, strings.Repeat("x", c.r.Intn(300)+c.bigTx()))))
 	}
 	cs := pbft.NewConsensusState(nd.conf, st, nd.store, pool)
 	if cs == nil {
@@ -186,6 +191,7 @@ func (c *cnet) boot(i int, fresh bool) error {
 		d.ResCh <- types.CommitResult{AppHash: h[:20], ReceiptsHash: h[12:]}
 	})
 	cs.SetEventSwitch(evsw)
+	nd.evsw = evsw
 	nd.cs = cs
 	nd.ticker = cs.VerifInstallTicker()
 	nd.down = false
@@ -286,15 +292,15 @@ func (c *cnet) collect(nd *vnode, hBefore int64) []string {
 			flush()
 			p := x.Proposal
 			curProp = sxL("1", sxZ(p.Round), sxZ(p.POLRound), sxZ(int64(p.BlockPartsHeader.Total)), sxB(p.BlockPartsHeader.Hash), "NPARTS")
-			c.broadcast(nd.idx, p.Height, netMsg{m, me})
+			c.broadcast(nd.idx, p.Height, netMsg{msg: m, from: me})
 		case *pbft.BlockPartMessage:
 			nparts++
-			c.broadcast(nd.idx, x.Height, netMsg{m, me})
+			c.broadcast(nd.idx, x.Height, netMsg{msg: m, from: me})
 		case *pbft.VoteMessage:
 			flush()
 			v := x.Vote
 			outs = append(outs, sxL("0", sxZ(int64(v.Type)), sxZ(v.Round), sxBid(bidJ(v.BlockID))))
-			c.broadcast(nd.idx, v.Height, netMsg{m, me})
+			c.broadcast(nd.idx, v.Height, netMsg{msg: m, from: me})
 			c.noteSigned(nd, v)
 		}
 	}
@@ -335,7 +341,11 @@ func (c *cnet) broadcast(from int, height int64, m netMsg) {
 		if j == from || nd == nil {
 			continue
 		}
-		nd.inbox = append(nd.inbox, m)
+		mm := m
+		if c.delay > 0 && c.r.Intn(100) < c.delay {
+			mm.after = c.now + 10 + c.r.Intn(150)
+		}
+		nd.inbox = append(nd.inbox, mm)
 	}
 }
 
@@ -451,9 +461,16 @@ func (c *cnet) blockOfPart(nd *vnode, part *types.Part) (string, bool) {
 	for key, ps := range c.psets {
 		if part.Index >= 0 && part.Index < ps.Total() && part.Proof.Verify(part.Index, ps.Total(), part.Hash(), ps.Hash()) {
 			b := c.blocks[key]
+			if b == nil {
+				// a part set that is not the encoding of a block
+				return sxL("#", sxZ(int64(ps.Total())), sxB(ps.Hash()), "0"), true
+			}
 			valid := false
 			if p, _ := catchPanic(func() { valid = nd.cs.ValidateBlock(b) == nil }); p {
 				valid = false
+			}
+			if kind, bad := c.madeInvalid[string(b.Hash())]; bad && valid && b.Height == nd.cs.GetRoundState().Height {
+				c.hit("invalid-block-accepted kind="+kind, fmt.Sprintf("node%d: ValidateBlock accepts a height-%d block whose %s is wrong", nd.idx, b.Height, kind))
 			}
 			return sxL(sxB(b.Hash()), sxZ(int64(ps.Total())), sxB(ps.Hash()), sxBool(valid)), true
 		}
@@ -503,7 +520,7 @@ func (c *cnet) deliver(nd *vnode, m netMsg) {
 	}()
 	if p, msg := catchPanic(func() { nd.cs.VerifDeliverMsg(m.msg, m.from) }); p {
 		nd.panicked = msg
-		c.hit("node-panic at=message", fmt.Sprintf("node%d on %s: %s", nd.idx, in, firstLine(msg)))
+		c.hit("node-panic at=message", fmt.Sprintf("node%d on %s: %s [%s]", nd.idx, in, firstLine(msg), lastPanicWhere))
 		nd.trace = append(nd.trace, sxL(in, "(2)"))
 		return
 	}
@@ -545,7 +562,7 @@ func (c *cnet) fire(nd *vnode) {
 	}()
 	if p, msg := catchPanic(func() { nd.cs.VerifDeliverTimeout(t) }); p {
 		nd.panicked = msg
-		c.hit("node-panic at=timeout", fmt.Sprintf("node%d on %s: %s", nd.idx, in, firstLine(msg)))
+		c.hit("node-panic at=timeout", fmt.Sprintf("node%d on %s: %s [%s]", nd.idx, in, firstLine(msg), lastPanicWhere))
 		nd.trace = append(nd.trace, sxL(in, "(2)"))
 		return
 	}
@@ -627,10 +644,10 @@ func (c *cnet) stateKey(nd *vnode) string {
 	rs := nd.cs.GetRoundState()
 	lb, pb := "-", "-"
 	if rs.LockedBlock != nil {
-		lb = fmt.Sprintf("%x@%d", rs.LockedBlock.Hash()[:4], rs.LockedRound)
+		lb = fmt.Sprintf("%x@%d", rs.LockedBlock.Hash(), rs.LockedRound)
 	}
 	if rs.ProposalBlock != nil {
-		pb = fmt.Sprintf("%x", rs.ProposalBlock.Hash()[:4])
+		pb = fmt.Sprintf("%x", rs.ProposalBlock.Hash())
 	}
 	var vs []string
 	for r := int64(0); r <= rs.Votes.Round(); r++ {
@@ -798,7 +815,7 @@ func (c *cnet) byzAct() {
 		}
 		t := byte(1 + c.r.Intn(2))
 		v := c.byzSignVote(i, h, vr, t, bids[c.r.Intn(len(bids))], c.r.Chance(1, 12))
-		m := netMsg{&pbft.VoteMessage{Vote: v}, from}
+		m := netMsg{msg: &pbft.VoteMessage{Vote: v}, from: from}
 		c.dist["byz=vote"]++
 		if c.r.Bool() {
 			c.archive[h] = append(c.archive[h], m)
@@ -832,13 +849,13 @@ func (c *cnet) byzAct() {
 			} else {
 				dst = live[:1+c.r.Intn(len(live))]
 			}
-			pm := netMsg{&pbft.ProposalMessage{Proposal: p}, from}
+			pm := netMsg{msg: &pbft.ProposalMessage{Proposal: p}, from: from}
 			c.archive[h] = append(c.archive[h], pm)
 			for _, nd := range dst {
 				nd.inbox = append(nd.inbox, pm)
 			}
 			for k := 0; k < ps.Total(); k++ {
-				m := netMsg{&pbft.BlockPartMessage{Height: h, Round: r, Part: ps.GetPart(k)}, from}
+				m := netMsg{msg: &pbft.BlockPartMessage{Height: h, Round: r, Part: ps.GetPart(k)}, from: from}
 				c.archive[h] = append(c.archive[h], m)
 				for _, nd := range dst {
 					nd.inbox = append(nd.inbox, m)
@@ -848,12 +865,12 @@ func (c *cnet) byzAct() {
 	case k < 9:
 		// vote for another height
 		v := c.byzSignVote(i, h+int64(c.r.Intn(3))-1, r, 2, bids[c.r.Intn(len(bids))], false)
-		tgt.inbox = append(tgt.inbox, netMsg{&pbft.VoteMessage{Vote: v}, from})
+		tgt.inbox = append(tgt.inbox, netMsg{msg: &pbft.VoteMessage{Vote: v}, from: from})
 		c.dist["byz=vote-other-height"]++
 	default:
 		// a part that belongs to nothing being collected
 		for _, ps := range c.psets {
-			tgt.inbox = append(tgt.inbox, netMsg{&pbft.BlockPartMessage{Height: h, Round: r, Part: ps.GetPart(0)}, from})
+			tgt.inbox = append(tgt.inbox, netMsg{msg: &pbft.BlockPartMessage{Height: h, Round: r, Part: ps.GetPart(0)}, from: from})
 			c.dist["byz=stray-part"]++
 			break
 		}
@@ -873,12 +890,94 @@ func (c *cnet) byzBlock(tgt *vnode, i int, invalid bool) (*types.Block, *types.P
 		return nil, nil
 	}
 	c.txn++
-	txs := []types.Tx{types.Tx(fmt.Sprintf("byz-%d-%d", i, c.txn))}
-	app := st.AppHash
+	txs := []types.Tx{types.Tx(fmt.Sprintf("byz-%d-%d-%s", i, c.txn, strings.Repeat("y", c.bigTx())))}
+	app, rcpt, valHash, lastID, proposer := st.AppHash, st.ReceiptsHash, st.Validators.Hash(), st.LastBlockID, c.addrs[i]
+	kind := ""
 	if invalid {
-		app = append([]byte{0xff}, app...)
+		kinds := []string{"app-hash", "receipts-hash", "validators-hash", "last-block-id", "proposer-unknown"}
+		if rs.Height > 1 {
+			kinds = append(kinds, "commit-duplicated-signer", "commit-all-nil", "commit-foreign-round", "commit-missing-votes", "commit-resigned-by-us")
+		}
+		kind = kinds[c.r.Intn(len(kinds))]
+		switch kind {
+		case "app-hash":
+			app = append([]byte{0xff}, app...)
+		case "receipts-hash":
+			rcpt = append([]byte{0xff}, rcpt...)
+		case "validators-hash":
+			valHash = c.r.Bytes(20)
+		case "last-block-id":
+			lastID = types.BlockID{Hash: c.r.Bytes(20), PartsHeader: lastID.PartsHeader}
+		case "proposer-unknown":
+			proposer = c.r.Bytes(20)
+		case "commit-duplicated-signer":
+			// our own precommit copied into every slot
+			cp := *commit
+			cp.Precommits = make([]*types.Vote, len(commit.Precommits))
+			mine := c.byzSignVote(i, rs.Height-1, commit.Round(), types.VoteTypePrecommit, commit.BlockID, false)
+			for k := range cp.Precommits {
+				v := *mine
+				cp.Precommits[k] = &v
+			}
+			commit = &cp
+		case "commit-all-nil":
+			cp := *commit
+			cp.Precommits = make([]*types.Vote, len(commit.Precommits))
+			commit = &cp
+		case "commit-foreign-round":
+			cp := *commit
+			cp.Precommits = make([]*types.Vote, len(commit.Precommits))
+			for k := range cp.Precommits {
+				if c.byz[k] {
+					cp.Precommits[k] = c.byzSignVote(k, rs.Height-1, commit.Round()+1, types.VoteTypePrecommit, commit.BlockID, false)
+				} else {
+					cp.Precommits[k] = commit.Precommits[k]
+				}
+			}
+			commit = &cp
+		case "commit-missing-votes":
+			cp := *commit
+			cp.Precommits = append([]*types.Vote{}, commit.Precommits...)
+			kept := 0
+			for k := range cp.Precommits {
+				if cp.Precommits[k] != nil {
+					kept++
+					if kept > 1 {
+						cp.Precommits[k] = nil
+					}
+				}
+			}
+			commit = &cp
+		case "commit-resigned-by-us":
+			// every slot signed with our key under the slot's address and index
+			cp := *commit
+			cp.Precommits = make([]*types.Vote, len(commit.Precommits))
+			for k := range cp.Precommits {
+				v := &types.Vote{ValidatorAddress: c.addrs[k], ValidatorIndex: k, Height: rs.Height - 1, Round: commit.Round(), Type: types.VoteTypePrecommit, BlockID: commit.BlockID}
+				v.Signature = c.keys[i].Sign(types.SignBytes(c.chainID, v))
+				cp.Precommits[k] = v
+			}
+			if c.byz[i] {
+				commit = &cp
+			}
+		}
 	}
-	return types.MakeBlock(rs.Height, c.chainID, txs, nil, commit, c.addrs[i], st.LastBlockID, st.Validators.Hash(), app, st.ReceiptsHash, c.partSize)
+	blk, ps := types.MakeBlock(rs.Height, c.chainID, txs, nil, commit, proposer, lastID, valHash, app, rcpt, c.partSize)
+	if invalid {
+		c.madeInvalid[string(blk.Hash())] = kind
+		if kind == "commit-resigned-by-us" && !c.byz[i] {
+			delete(c.madeInvalid, string(blk.Hash()))
+		}
+	}
+	return blk, ps
+}
+
+// some blocks are large enough for their WAL records to exceed a bufio buffer
+func (c *cnet) bigTx() int {
+	if c.partSize >= 65536 && c.r.Chance(1, 3) {
+		return 3000 + c.r.Intn(6000)
+	}
+	return c.r.Intn(60)
 }
 
 // ---------- the run ----------
@@ -886,7 +985,7 @@ func (c *cnet) byzBlock(tgt *vnode, i int, invalid bool) (*types.Block, *types.P
 func runConsensusCase(idx int, cse *csCase, workroot string) ([]string, []MonitorHit, map[string]int, bool) {
 	r := NewRng(cse.Seed)
 	c := &cnet{r: r, chainID: "verif-chain", archive: map[int64][]netMsg{}, dist: map[string]int{}, caseIdx: idx,
-		blocks: map[string]*types.Block{}, psets: map[string]*types.PartSet{}, proposers: map[string][]byte{}}
+		blocks: map[string]*types.Block{}, psets: map[string]*types.PartSet{}, proposers: map[string][]byte{}, madeInvalid: map[string]string{}}
 	c.workdir = filepath.Join(workroot, fmt.Sprintf("net%d", idx))
 	os.RemoveAll(c.workdir)
 	os.MkdirAll(c.workdir, 0700)
@@ -901,6 +1000,7 @@ func runConsensusCase(idx int, cse *csCase, workroot string) ([]string, []Monito
 	c.n = []int{1, 3, 4, 4, 4, 5, 7}[r.Intn(7)]
 	c.skip = r.Chance(1, 4)
 	c.partSize = []int{256, 512, 65536}[r.Intn(3)]
+	c.delay = []int{0, 0, 15, 40, 70}[r.Intn(5)]
 	// keys sorted by address, like the validator set
 	type kv struct {
 		k crypto.PrivKeyEd25519
@@ -914,10 +1014,11 @@ func runConsensusCase(idx int, cse *csCase, workroot string) ([]string, []Monito
 	sort.Slice(ks, func(i, j int) bool { return bytes.Compare(ks[i].a, ks[j].a) < 0 })
 	total := int64(0)
 	skew := r.Chance(1, 3)
+	unit := []int64{1, 1, 10, 7}[r.Intn(4)]
 	for i := range ks {
 		c.keys = append(c.keys, ks[i].k)
 		c.addrs = append(c.addrs, ks[i].a)
-		p := int64(10)
+		p := unit
 		if skew {
 			p = int64(1 + r.Intn(20))
 		}
@@ -969,6 +1070,7 @@ func runConsensusCase(idx int, cse *csCase, workroot string) ([]string, []Monito
 	steps := 150 + r.Intn(250)
 	crashes := 0
 	for s := 0; s < steps; s++ {
+		c.now = s
 		nd := honest[r.Intn(len(honest))]
 		nd = c.nodes[nd.idx]
 		c.learnOwnBlocks(nd)
@@ -977,7 +1079,7 @@ func runConsensusCase(idx int, cse *csCase, workroot string) ([]string, []Monito
 			if len(nd.internal) > 0 {
 				m := nd.internal[0]
 				nd.internal = nd.internal[1:]
-				c.deliver(nd, netMsg{m, ""})
+				c.deliver(nd, netMsg{msg: m, from: ""})
 			} else if len(nd.inbox) > 0 {
 				c.deliverFromInbox(nd)
 			}
@@ -987,7 +1089,7 @@ func runConsensusCase(idx int, cse *csCase, workroot string) ([]string, []Monito
 			} else if len(nd.internal) > 0 {
 				m := nd.internal[0]
 				nd.internal = nd.internal[1:]
-				c.deliver(nd, netMsg{m, ""})
+				c.deliver(nd, netMsg{msg: m, from: ""})
 			}
 		case k < 85:
 			if len(nd.internal) == 0 || r.Chance(1, 4) {
@@ -1041,7 +1143,7 @@ func runConsensusCase(idx int, cse *csCase, workroot string) ([]string, []Monito
 			if len(nd.internal) > 0 {
 				m := nd.internal[0]
 				nd.internal = nd.internal[1:]
-				c.deliver(nd, netMsg{m, ""})
+				c.deliver(nd, netMsg{msg: m, from: ""})
 				idle = false
 			} else if len(nd.inbox) > 0 {
 				m := nd.inbox[0]
@@ -1165,7 +1267,7 @@ func (c *cnet) gossipTo(nd *vnode, honest []*vnode) {
 					}
 					for i := 0; i < vs.Size(); i++ {
 						if v := vs.GetByIndex(i); v != nil {
-							nd.inbox = append(nd.inbox, netMsg{&pbft.VoteMessage{Vote: v}, from})
+							nd.inbox = append(nd.inbox, netMsg{msg: &pbft.VoteMessage{Vote: v}, from: from})
 						}
 					}
 				}
@@ -1180,12 +1282,12 @@ func (c *cnet) gossipTo(nd *vnode, honest []*vnode) {
 			c.claimMaj23(nd, sc.Round(), types.VoteTypePrecommit, from, types.BlockID{Hash: meta.Hash, PartsHeader: meta.PartsHeader})
 			for _, v := range sc.Precommits {
 				if v != nil {
-					nd.inbox = append(nd.inbox, netMsg{&pbft.VoteMessage{Vote: v}, from})
+					nd.inbox = append(nd.inbox, netMsg{msg: &pbft.VoteMessage{Vote: v}, from: from})
 				}
 			}
 			for i := 0; i < meta.PartsHeader.Total; i++ {
 				if p := o.store.LoadBlockPart(h, i); p != nil {
-					nd.inbox = append(nd.inbox, netMsg{&pbft.BlockPartMessage{Height: h, Round: sc.Round(), Part: p}, from})
+					nd.inbox = append(nd.inbox, netMsg{msg: &pbft.BlockPartMessage{Height: h, Round: sc.Round(), Part: p}, from: from})
 				}
 			}
 			return
@@ -1194,9 +1296,18 @@ func (c *cnet) gossipTo(nd *vnode, honest []*vnode) {
 }
 
 func (c *cnet) deliverFromInbox(nd *vnode) {
-	j := 0
+	var elig []int
+	for k, m := range nd.inbox {
+		if m.after <= c.now {
+			elig = append(elig, k)
+		}
+	}
+	if len(elig) == 0 {
+		return
+	}
+	j := elig[0]
 	if c.r.Chance(1, 3) {
-		j = c.r.Intn(len(nd.inbox))
+		j = elig[c.r.Intn(len(elig))]
 	}
 	m := nd.inbox[j]
 	if c.r.Chance(1, 15) {
